@@ -19,9 +19,12 @@ import (
 // packet in either direction (positions enumerated from a fault-free base run),
 // the backend acknowledges synchronously, late or never.
 
-func init() {
-	core.Register(&core.Check{ID: "C07", Expand: expandC07, Run: runC07})
-}
+// ExpandC07 / RunC07: the check is registered by the e2e package, which adds an
+// end-to-end seed class (real clients against the real broker) to it.
+func ExpandC07(t *testing.T, seed uint64, tier string) []*core.Plan { return expandC07(t, seed, tier) }
+
+// RunC07 runs one plan of the scripted-peer classes.
+func RunC07(t *testing.T, p *core.Plan) *core.Result { return runC07(t, p) }
 
 type pubFlow struct {
 	id     packet.ID
